@@ -148,3 +148,28 @@ def _v34(repo, mod):
 @variant("C18", "twin-collector-renamed", EX, None, "renaming the collector and its accumulator stays silent")
 def _v35(repo, mod):
     return mod.source.replace("_enum_types_of", "_enum_classes_in").replace("used_enum_types", "enum_classes")
+
+
+@variant("C18", "exception-named-by-its-bare-name", EX, "C18.exc-import", "nested exception classes rendered as `Empty` (the repaired defect)")
+def _v60(repo, mod):
+    from sa.selftest.harness import text_edit
+    src = text_edit(mod, "cst.Arg(value=cst.parse_expression(nameable_type.__qualname__))", "cst.Arg(value=cst.Name(nameable_type.__name__))")
+    return src.replace('exc_type.__qualname__.split(".")[0]', "exc_type.__name__", 1)
+
+
+@variant("C18", "function-local-exception-named", EX, "C18.exc-import", "a class defined inside a function is named in pytest.raises (the repaired defect)")
+def _v61(repo, mod):
+    from sa.selftest.harness import text_edit
+    return text_edit(mod, "nameable_type = _nameable_exception_type(exc_type)", "nameable_type = exc_type")
+
+
+@variant("C18", "outermost-class-not-imported", EX, "C18.exc-import", "the reference is Stack.Empty but `Empty` is imported")
+def _v62(repo, mod):
+    from sa.selftest.harness import text_edit
+    return text_edit(mod, 'exc_type.__qualname__.split(".")[0]', 'exc_type.__qualname__.split(".")[-1]')
+
+
+@variant("C18", "twin-outermost-name-by-partition", EX, None, "first component taken with partition")
+def _v63(repo, mod):
+    from sa.selftest.harness import text_edit
+    return text_edit(mod, 'exc_type.__qualname__.split(".")[0]', 'exc_type.__qualname__.partition(".")[0]')
